@@ -7,12 +7,12 @@ NODE_TB = COMMON_TB + [
 
 CFG = {
     "props": "Props/C03.v",
-    "corr": ["Corr/NodeCorr.v"],
-    "engines": [("node", [])],
+    "corr": ["Corr/NodeCorr.v", "Corr/NetCorr.v"],
+    "engines": [("node", []), ("net", [])],
     "axioms": [],
     "trusted": NODE_TB + ["hypotheses vrec_unchained and recov_sound (kyber tbls.Recover returns only when >= t listed partials with distinct indices each verify; read from kyber v1.3.2 source) are Section hypotheses visible in the theorem statements; unforgeability of BLS is not a theorem here"],
     "assumptions": ["pairing arithmetic, Lagrange interpolation in Recover and SHA-256 are not modelled (oracles)", "serving side: PublicRand's exact-round rule is modelled in Model/Serve.v; gRPC/HTTP marshalling is not modelled"],
-    "level_text": "C03_local: for every state and incoming partial, whenever the aggregator stores a beacon for (round, previous signature) the cache entry for exactly that pair holds at least the live threshold of pairwise-distinct signer indices whose partials verify against the live polynomial (via the soundness of Recover, stated as hypothesis recov_sound), and the beacon is head+1; C03_filter: only partials of live-group members other than the node itself, at most one round ahead of the clock and verifying, reach the aggregator -- for all inputs. Non-vacuity examples for (4,3): 3 contributors produce, 2 do not. Tied to the real Handler by the node engine (threshold-1 / threshold / duplicates / forged index / non-member cases) with an independent contributor-count monitor. C03_net: in the abstract network every beacon that exists anywhere was preceded by partials of at least t distinct members for exactly its round (symbolic unforgeability is the network model's rule, not a theorem about BLS).",
+    "level_text": "C03_local: for every state and incoming partial, whenever the aggregator stores a beacon for (round, previous signature) the cache entry for exactly that pair holds at least the live threshold of pairwise-distinct signer indices whose partials verify against the live polynomial (via the soundness of Recover, stated as hypothesis recov_sound), and the beacon is head+1; C03_filter: only partials of live-group members other than the node itself, at most one round ahead of the clock and verifying, reach the aggregator -- for all inputs. Non-vacuity examples for (4,3): 3 contributors produce, 2 do not. Tied to the real Handler by the node engine (threshold-1 / threshold / duplicates / forged index / non-member cases) with an independent contributor-count monitor. C03_net: in the abstract network every beacon that exists anywhere was preceded by partials of at least t distinct members for exactly its round (symbolic unforgeability is the network model's rule, not a theorem about BLS). C03_system_threshold (Model/Net.v, see C04): in every reachable system state every beacon in every honest chain had valid partials of >= t distinct indices for exactly its round on the wire, >= t-|F| of them from indices the adversary does not hold. Tied to the code by the system engine (several real Handlers) with an independent monitor counting valid indices on the real wire.",
     "level_note": "Kernel-checked, no axioms. Trusts the oracle abstraction of BLS (validated by the correspondence with real signatures over 2 schemes quick / 5 thorough), the harness, and the quiescent-step granularity; transport layers are not modelled.",
 }
 
